@@ -62,11 +62,26 @@ CLAIMED = {
         text=("Read side: Lean theorems take_den, chain_den, {take,chain}_{advance,copyToSlice,copyToBytes}_inner (after consuming n bytes "
               "through the adapter the limit dropped by n and the inner buffers — arbitrary trees — advanced by exactly n / min(n,|a|) and the "
               "rest), readerRead_spec, readerFillBuf_spec. T2: the judge checks limit()/get_ref()/first_ref()/last_ref() after every "
-              "consuming op on Take/Chain roots, Reader read/fill_buf/consume, set_limit in mid-stream. Write side (Limit, Chain as BufMut, "
-              "Writer) is covered with C11's model once built; until then this claim is partial (read side only)."),
+              "consuming op on Take/Chain roots, Reader read/fill_buf/consume, set_limit in mid-stream. Write side (Props/C11.lean): limit_room, "
+              "limit_putSlice_inner, chain_putSlice_inner (all of a, then b), writerWrite_spec (min(remaining_mut, requested), never fails); "
+              "T2 mut stream checks limit()/get_ref()/first/second targets after every write."),
         design='§7 C12, §3 M2',
-        note="Trusted: as C09. Partial: write-side adapters (Limit, Writer, Chain as BufMut) not yet in the model.",
+        note="Trusted: as C09 and C11 (hand-written M2 read and write models tied by T2).",
         technique='Lean 4 proof by structural induction over a hand-written executable model; differential correspondence check (lock-step judge)',
+    ),
+    'C11': dict(
+        category='proof',
+        text=("Lean theorems over write-side target trees (any nesting, any Env of growth decisions): put_slice / put_bytes / put(Buf) append "
+              "exactly the source bytes in order and shrink the room by exactly that many, panic when they do not fit; chunk_mut is empty iff "
+              "remaining_mut is 0 and never longer; every put_X row accepted by putRowOK appends exactly encode(spec, value, nbytes); "
+              "decode(encode v) = v on the method's value range (round-trip with C10's decode, incl. nbytes truncation). The putter table, "
+              "default-loop texts and forwarders are regenerated from src/buf/buf_mut.rs each run and certified by `decide`. T2: ~33k target "
+              "cases, every put method x boundary values x nbytes x fill levels, guard bytes checked after every op and after panics."),
+        design='§7 C11, §3 M2/M3',
+        note=("Trusted: Lean kernel; hand-written M2 write model (tied by T2); T1 extractor; growth decisions are an arbitrary Env (judge "
+              "re-synchronises spare capacities); states within 64 bytes of isize::MAX excluded; ordM (chain written in order) is an "
+              "invariant of states reached through the API, proved preserved."),
+        technique='Lean 4 proof (induction over target trees and loop fuel; verified decision procedure for the put table; decode/encode round-trip) + per-run decide certificate; differential correspondence run',
     ),
 }
 
